@@ -396,7 +396,8 @@ func runC03(c *Ctx) {
 					if ir.DefiniteNil(ir.ReturnResult(ret, 0)) != ir.IsNil {
 						continue
 					}
-					if ir.CanReach(apply, ir.PathQuery{From: addMount.in, To: ret, Stop: func(in ssa.Instruction) bool { return in == sortSite.in }}) {
+					if ir.CanReach(apply, ir.PathQuery{From: addMount.in, To: ret, Stop: func(in ssa.Instruction) bool { return in == sortSite.in },
+						Cut: c.contradictedEdges(apply, addMount.in)}) {
 						always = false
 					}
 				}
